@@ -309,4 +309,57 @@ def device_connect_returns_requested_peer(both: int, which: int, incoming: int) 
             return got[tk] == [b'\x07\x08'] and got[ok] == []
 
 
+
+@harness(pre=['0 <= closer <= 1 and 0 <= bystander_adv <= 1'], family='devices', kernels=K + ('bumble.device.Device.create_advertising_set', 'bumble.controller.AdvertisingSet.send_extended_advertising_data'), timeout=(240, 600),
+         bounds='the peripheral advertises with an extended advertising set that has its OWN random address (different from the controller-wide addresses); a bystander may advertise too: the central connects to the set address, both ends report matching addresses, data flows in both directions to the peer only, and a disconnection by either side is reported to both')
+def device_extended_set_with_own_address(closer: int, bystander_adv: int) -> bool:
+    closer, bystander_adv = C(closer, 0, 1), C(bystander_adv, 0, 1)
+    with untraced():
+        from bumble.device import AdvertisingParameters
+        detenv.reset()
+        with detloop.running() as loop:
+            link = lnk.LocalLink()
+            devs, ctls = [], []
+            for i, addr in enumerate(('F0:F1:F2:F3:F4:F5', 'F5:F4:F3:F2:F1:F0', 'F7:F6:F5:F4:F3:F2')):
+                c = ctl.Controller(f'C{i}', link=link)
+                ctls.append(c)
+                devs.append(bdev.Device(f'D{i}', address=hci.Address(addr), host=bhost.Host(c, c)))
+            ctls[1].le_features |= hci.LeFeatureMask.LE_EXTENDED_ADVERTISING
+            for d in devs:
+                loop.create_task(d.power_on())
+            _dsettle(loop)
+            central, periph, other = devs
+            set_address = hci.Address('C5:11:22:33:44:55', hci.Address.RANDOM_DEVICE_ADDRESS)
+            t = loop.create_task(periph.create_advertising_set(
+                advertising_parameters=AdvertisingParameters(own_address_type=hci.OwnAddressType.RANDOM, primary_advertising_interval_min=1.0), random_address=set_address))
+            if bystander_adv:
+                loop.create_task(other.start_advertising(auto_restart=False))
+            _dsettle(loop)
+            if not t.done() or t.exception():
+                return False
+            pconns = []
+            periph.on(periph.EVENT_CONNECTION, pconns.append)
+            tc = loop.create_task(central.connect(set_address))
+            _dsettle(loop)
+            if not tc.done() or tc.exception() or len(pconns) != 1:
+                return False
+            cconn, pconn = tc.result(), pconns[0]
+            if cconn.peer_address != pconn.self_address or other.connections:
+                return False
+            got = {0: [], 1: [], 2: []}
+            for k in (0, 1, 2):
+                devs[k].l2cap_channel_manager.register_fixed_channel(0x3F, lambda h, pdu, k=k: got[k].append(bytes(pdu)))
+            central.send_l2cap_pdu(cconn.handle, 0x3F, b'\x01\x02')
+            periph.send_l2cap_pdu(pconn.handle, 0x3F, b'\x03')
+            _dsettle(loop)
+            if got != {0: [b'\x03'], 1: [b'\x01\x02'], 2: []}:
+                return False
+            ends = {'c': [], 'p': []}
+            cconn.on(cconn.EVENT_DISCONNECTION, lambda r: ends['c'].append(r))
+            pconn.on(pconn.EVENT_DISCONNECTION, lambda r: ends['p'].append(r))
+            td = loop.create_task((cconn if closer == 0 else pconn).disconnect())
+            _dsettle(loop)
+            return td.done() and td.exception() is None and len(ends['c']) == 1 and len(ends['p']) == 1
+
+
 _flags.int_format_placeholder = True
